@@ -190,6 +190,20 @@ def part_b(ctx):
                     ctx.fail(doc, dict(got=got, want=want), "accepted input set: records duplicated, lost or out of order")
             if (o == "ok") != (acc == 1):
                 ctx.disagree(doc, o, acc, "cut outcome differs from the model")
+    # ---- overlapping ranges where one file's contig blocks are not in header order (text VCF allows it) ----
+    blocks_rev = [(1, 100), (1, 300), (1, 500), (0, 100), (0, 300), (0, 500)]     # body: c1 block, then c0 block
+    fa = mkfile(d, "rev_a", blocks_rev, kind="tbi")
+    variants = {"overlap": [(0, 300), (0, 600), (0, 700)], "interleave": [(0, 200), (0, 400)], "nested": [(0, 150), (0, 250)],
+                "same-records": blocks_rev, "other-contig-overlap": [(1, 50), (1, 250)]}
+    for label, recs_b in variants.items():
+        fb = mkfile(d, "rev_b", recs_b, kind=r.choice(["tbi", "csi"]))
+        for lst in ([fa, fb], [fb, fa]):
+            doc = dict(part="cut-files", special="contig blocks out of header order", variant=label, first=("a" if lst[0] == fa else "b"))
+            ctx.case(doc, nontrivial=True)
+            ctx.count("out-of-order-blocks")
+            o = convert_outcome(lst, out, icfp)
+            if o == "ok" or finished(out):
+                ctx.fail(doc, dict(outcome=o), f"file set with intersecting ranges accepted (one file lists its contigs in another order than the header; {label})")
     # ---- same file twice ----
     p0 = mkfile(d, "same", [(0, 10), (0, 20), (1, 5)])
     for lst in ([p0, p0], [p0, mkfile(d, "other", [(1, 50)]), p0]):
